@@ -36,12 +36,6 @@ ASSUMPTIONS = [
     "generated float-valued fields use renderings that htslib reproduces verbatim",
 ]
 
-# Which rule set of the model the implementation is compared with (L2): "cur" = the code as it is in /repo;
-# "fix" = the repaired rules (only for trying a candidate patch in a scratch worktree:
-# WHVERIF_REPO=<worktree> WHVERIF_BUILD_ROOT=<dir> WHVERIF_MODEL_RULES=fix ./check C04).
-MODEL_RULES = os.environ.get("WHVERIF_MODEL_RULES", "cur")
-assert MODEL_RULES in ("cur", "fix")
-
 HEADER = """From Coq Require Import ZArith List Bool Arith.
 From WH.Model Require Import VcfRecord.
 Import ListNotations.
@@ -49,8 +43,9 @@ Open Scope Z_scope.
 Record kase := mkCase { k_cf : cfg; k_plan : list (token * list target); k_in : list vrec; k_out : option (list vrec);
   k_distrust : bool; k_cli : bool; k_hin : header; k_hout : header; k_use : body_use; k_cmd : option token;
   k_predef_f : list token; k_predef_i : list token }.
-Definition the_rules := RULES_rules.
-Definition the_guard := RULES_guard.
+(* the model of the code as it is: the repaired rules (orig_rules / orig_guard = before the fix commits) *)
+Definition the_rules := fix_rules.
+Definition the_guard := fix_guard.
 Definition with_out (k : kase) (f : list vrec -> bool) : bool := match k_out k with Some o => f o | None => true end.
 Definition l2 (k : kase) : bool :=
   match phase_writer (k_cf k) the_rules (k_plan k) (k_in k), k_out k with
@@ -65,6 +60,9 @@ Definition l2_header (k : kase) : bool :=
   end.
 Definition l1_conserves (k : kase) := with_out k (conserves fixed_eqb (k_in k)).
 Definition l1_conserves_mod_end (k : kase) := with_out k (conserves fixed_mod_end_eqb (k_in k)).
+(* identical up to exactly pysam's INFO/END re-synchronisation rule (sync_end) *)
+Definition l1_conserves_end_rule (k : kase) :=
+  with_out k (conserves (fun a b => fixed_eqb (sync_end (end_decl (k_cf k)) a) b) (k_in k)).
 Definition l1_frames (k : kase) := with_out k (frames (annotate (k_plan k) (k_in k))).
 Definition l1_alleles (k : kase) := with_out k (fun o =>
   if k_distrust k then true
@@ -74,8 +72,7 @@ Definition l1_het (k : kase) := with_out k (only_het_supported (k_cf k) (annotat
 Definition l1_header (k : kase) := with_out k (fun _ => header_superset (k_hin k) (k_hout k)).
 Definition plan_ok (k : kase) := list_eqb Z.eqb (map fst (k_plan k)) (runs (k_in k)).
 """
-HEADER = HEADER.replace("RULES_", MODEL_RULES + "_")
-CHECKS = {"L2": "l2", "L2_header": "l2_header", "conserves": "l1_conserves", "conserves_mod_end": "l1_conserves_mod_end",
+CHECKS = {"L2": "l2", "L2_header": "l2_header", "conserves": "l1_conserves", "conserves_mod_end": "l1_conserves_mod_end", "conserves_end_rule": "l1_conserves_end_rule",
           "frames": "l1_frames", "alleles": "l1_alleles", "het": "l1_het", "header": "l1_header", "plan_ok": "plan_ok"}
 
 
@@ -238,7 +235,10 @@ def evaluate(ctx, cases, label):
     if bad_plan:
         raise RuntimeError(f"harness bug: plan does not follow the chromosome runs in case {cases[bad_plan[0]]['desc']}")
     # INFO/END resynchronisation by pysam: strict column identity fails, identity modulo END holds
-    end_only = [i for i in failing["conserves"] if i not in failing["conserves_mod_end"]]
+    # known finding, reported only for records whose INFO/END pysam rewrites by its rule; any other difference of
+    # the fixed columns (also one confined to the END key) goes to writer:records-or-fixed-columns
+    end_only = [i for i in failing["conserves"] if i not in failing["conserves_end_rule"]]
+    failing["conserves_mod_end"] = sorted(set(failing["conserves_mod_end"]) | set(failing["conserves_end_rule"]))
     for i in end_only[:2]:
         ctx.violation("writer:info-end-resynced",
                       "INFO column changed: pysam's VariantFile.write re-synchronises INFO/END (END=... appended to a record "
